@@ -47,6 +47,7 @@ type Engine struct {
 	cellinvs  []*CellInv
 	tables    []*TableDecl
 	lemmas    []*Lemma
+	headerCache map[string]string
 }
 
 func run(dir string, env []string, name string, args ...string) (string, error) {
@@ -63,7 +64,7 @@ func newEngine(repo string) (*Engine, error) {
 	e := &Engine{repoDir: repo, sorts: newSorts(), funcs: map[string]*ssa.Function{}, fnames: map[*ssa.Function]string{},
 		contracts: map[string]*Contract{}, ifaceCons: map[string]*Contract{}, modsets: map[*ssa.Function]map[string]bool{},
 		strConsts: map[string]string{}, files: map[string]*ast.File{}, srcCache: map[string][]byte{}, compSorts: map[string]Sort{},
-		rules: map[string]*Rule{}}
+		rules: map[string]*Rule{}, headerCache: map[string]string{}}
 	scratch, err := os.MkdirTemp("", "bornovc-")
 	if err != nil {
 		return nil, err
